@@ -649,8 +649,6 @@ def oracle(ctx, tree, obs, pool, cfg=None, main=None):
         ctx.oracle_failure(f'{what} :: {json.dumps(shown)} {json.dumps(tree)[:400]}', {'tree': main, 'cfg': cfg},
                            key=key)
 
-    for what in obs.get('structural', []):
-        fail(what, 'shared-containers')
 
     reason = unwritable_reason(tree, pool)
     if obs['raised']:
@@ -818,6 +816,25 @@ def gen_child_cases(ctx, pool):
     return cases
 
 
+def report_structural(ctx, case, all_obs, behaviour_failed):
+    '''Two Rst / FormattedRst objects sharing a container is not a failure of the property by itself (a
+    FormattedRst that references instead of copying, interned empty lists, ... are harmless): it is noted in the
+    evidence, and becomes part of the diagnosis only when a behavioural clause of the same case fails too.'''
+    structural = sorted({what for obs in all_obs for what in obs.get('structural') or []})
+    if not structural:
+        return
+    ctx.count('note_shared_containers')
+    if behaviour_failed:
+        shown = {k: v for k, v in case['cfg'].items() if k != 'partners'}
+        ctx.oracle_failure(f'(diagnosis of the failures of this case) {"; ".join(structural)} :: {json.dumps(shown)} '
+                           f'{json.dumps(case["tree"])[:300]}', case, key='shared-containers')
+    else:
+        note = ('NOTE (not a violation): in some overlap histories ' + '; '.join(structural)
+                + ' - every report was nevertheless written correctly')
+        if note not in ctx.notes:
+            ctx.notes.append(note)
+
+
 def load():
     common.import_repo()
     from valjean.javert.test_report import TestReport
@@ -863,9 +880,11 @@ def run(ctx):
     for case in cases:
         tree, cfg = case['tree'], case['cfg']
         all_obs = run_case(tree, wdir, pool, TestReport, cfg)
+        before = len(ctx.violations)
         for obs in all_obs:
             oracle(ctx, obs.get('tree', tree), obs, pool, cfg, main=tree)
             done.append((obs.get('tree', tree), obs, cfg))
+        report_structural(ctx, case, all_obs, len(ctx.violations) > before)
         ctx.count('directories_observed', len(all_obs))
         obs = all_obs[0] if cfg.get('history') in OVERLAPS else all_obs[-1]
         ctx.case_seen(case, bool(obs['raised']) or len(obs['pages']) >= 3, sample_every=131)
@@ -947,6 +966,9 @@ def replay(ctx, path):
         print('impl:', json.dumps({k: obs.get(k) for k in ('tree', 'structural', 'raised', 'files', 'pages', 'figs',
                                                            'others')}))
         oracle(ctx, obs.get('tree', tree), obs, pool, cfg, main=tree)
+    report_structural(ctx, {'tree': tree, 'cfg': cfg}, all_obs, bool(ctx.violations))
+    for note in ctx.notes:
+        print('note:', note)
     obs = all_obs[0]
     tree = obs.get('tree', tree)
     for v in ctx.violations:
